@@ -41,8 +41,10 @@ def main():
         shutil.copytree(os.path.join(bak, "evidence"), os.path.join(V, "evidence"))
         shutil.rmtree(bak)
     meta.setdefault("evaluated", {})[tier] = res
-    meta["caught_by"] = sorted(set(meta.get("caught_by", [])) | {i for i, r in res.items() if r["rc"] == 1 and r["violations"]})
-    meta["caught_with_input"] = sorted(set(meta.get("caught_with_input", [])) | {i for i, r in res.items() if r["rc"] == 1 and any("no-failing-input-found" not in v for v in r["violations"])})
+    # the latest evaluation of a check replaces what was recorded for it before (checks change)
+    meta["caught_by"] = sorted((set(meta.get("caught_by", [])) - set(res)) | {i for i, r in res.items() if r["rc"] == 1 and r["violations"]})
+    meta["caught_with_input"] = sorted((set(meta.get("caught_with_input", [])) - set(res)) |
+                                       {i for i, r in res.items() if r["rc"] == 1 and any("no-failing-input-found" not in v for v in r["violations"])})
     json.dump(meta, open(os.path.join(d, "meta.json"), "w"), indent=1)
     return 0
 
